@@ -30,7 +30,12 @@ LEVEL_TEXT = ("Lean 4 theorems over ALL 21 kernel tables (10 classes x admissibl
               "decide +kernel on the generated rationals, so they are re-checked against whatever the source says today.  The translator "
               "is validated on every run (exact evaluation of the tables in Lean vs the Python classes on r across and exactly on every "
               "breakpoint, h over 12 decades), the compiled twins are compared with the Python classes and with the mako rendering, and "
-              "the property's own predicate is evaluated on the real code (Python and compiled) to produce replays.")
+              "the property's own predicate is evaluated on the real code (Python and compiled) to produce replays -- including "
+              "kernel, dwdq, gradient and gradient_h with r EXACTLY on every knot and on the support edge (r*(1/h) == knot in "
+              "doubles; powers of two over 30 binades, decimals and random h): agreement with both one-sided values at "
+              "q(1 -+ 2^-20) to the accuracy continuity implies and with centred finite differences of kernel() in r and h.  A value "
+              "of q that the source treats unlike both neighbouring intervals becomes a degenerate piece [b, b] of the table, so "
+              "table_wellformed (lo < hi on every piece) and the per-piece obligations break instead of the translator deciding.")
 LEVEL_NOTE = ("Trusted: Lean kernel + Mathlib, axioms propext/Classical.choice/Quot.sound; translate/kernels2lean.py (validated each run, "
               "~12k points quick); exact real arithmetic in place of IEEE doubles (float literals read as decimals); the polar-coordinate "
               "identity int_{R^d} f(|x|) dx = S_d int r^(d-1) f(r) dr is not mechanised (normalisation is claimed in radial form); "
